@@ -235,15 +235,17 @@ func diffPath(a, b reflect.Value, path string, shallow bool) string {
 // rec is one written record of a file: the struct it is rendered from, its
 // name, and the SEC code of the batch it belongs to ("file" outside batches).
 type rec struct {
-	obj  any
-	name string
-	sec  string
+	obj   any
+	name  string
+	sec   string
+	batch int // index into File.Batches, -1 elsewhere
 }
 
 // records lists the records of f in the order the Writer emits them (records
 // rendering as the empty string are skipped by the Writer and here).
 func records(f *ach.File) []rec {
 	var out []rec
+	bi := -1
 	add := func(obj interface{ String() string }, name, sec string) {
 		if v := reflect.ValueOf(obj); v.Kind() == reflect.Ptr && v.IsNil() {
 			return
@@ -251,13 +253,18 @@ func records(f *ach.File) []rec {
 		if obj.String() == "" {
 			return
 		}
-		out = append(out, rec{obj, name, sec})
+		out = append(out, rec{obj, name, sec, bi})
 	}
 	add(&f.Header, "FileHeader", "file")
 	adv := f.IsADV()
-	for _, b := range f.Batches {
+	for i, b := range f.Batches {
+		bi = i
 		sec := b.GetHeader().StandardEntryClassCode
-		add(b.GetHeader(), "BatchHeader", sec)
+		kind := "std" // header and control are handled alike for every SEC but ADV
+		if sec == ach.ADV {
+			kind = ach.ADV
+		}
+		add(b.GetHeader(), "BatchHeader", kind)
 		if !adv {
 			for _, e := range b.GetEntries() {
 				add(e, "EntryDetail", sec)
@@ -278,11 +285,12 @@ func records(f *ach.File) []rec {
 			}
 		}
 		if sec != ach.ADV {
-			add(b.GetControl(), "BatchControl", sec)
+			add(b.GetControl(), "BatchControl", kind)
 		} else {
-			add(b.GetADVControl(), "ADVBatchControl", sec)
+			add(b.GetADVControl(), "ADVBatchControl", kind)
 		}
 	}
+	bi = -1
 	for i := range f.IATBatches {
 		b := &f.IATBatches[i]
 		add(b.GetHeader(), "IATBatchHeader", ach.IAT)
@@ -317,28 +325,28 @@ func records(f *ach.File) []rec {
 // fileDiff explains a difference between the texts of two files: it finds the
 // first record that is written differently and names the first exported
 // scalar field of that record that differs, as "<SEC|file>/<Record>.<Field>".
-func fileDiff(a, b *ach.File) string {
+func fileDiff(a, b *ach.File) (string, *rec) {
 	ra, rb := records(a), records(b)
 	for i := 0; i < len(ra) || i < len(rb); i++ {
 		switch {
 		case i >= len(rb):
-			return ra[i].sec + "/" + ra[i].name + "/record-missing"
+			return ra[i].sec + "/" + ra[i].name + "/record-missing", &ra[i]
 		case i >= len(ra):
-			return rb[i].sec + "/" + rb[i].name + "/record-added"
+			return rb[i].sec + "/" + rb[i].name + "/record-added", &rb[i]
 		}
 		x, y := ra[i], rb[i]
 		if x.obj.(interface{ String() string }).String() == y.obj.(interface{ String() string }).String() {
 			continue
 		}
 		if x.name != y.name {
-			return x.sec + "/" + x.name + "/replaced-by-" + y.name
+			return x.sec + "/" + x.name + "/replaced-by-" + y.name, &x
 		}
 		if d := diffPath(reflect.ValueOf(x.obj), reflect.ValueOf(y.obj), x.name, true); d != "" {
-			return x.sec + "/" + d
+			return x.sec + "/" + d, &x
 		}
-		return x.sec + "/" + x.name + "/no-exported-field-differs"
+		return x.sec + "/" + x.name + "/no-exported-field-differs", &x
 	}
-	return ""
+	return "", nil
 }
 
 // textDiff describes the first differing line of two NACHA texts: record type
@@ -428,6 +436,32 @@ func errKind(err error, kind string) string {
 	return kind
 }
 
+// offsetRelated says whether a differing record of a batch with an Offset is
+// one that rebuilding the offsets touches: an OFFSET entry or the batch
+// header / control (other entries of the batch are left alone, and so is the
+// name of an OFFSET entry).
+func offsetRelated(r *rec) bool {
+	if e, ok := r.obj.(*ach.EntryDetail); ok {
+		return strings.EqualFold(strings.TrimSpace(e.IndividualName), "OFFSET")
+	}
+	return r.name == "BatchHeader" || r.name == "BatchControl"
+}
+
+// offsetBatch marks a batch error that names a batch carrying an Offset (such a
+// batch is rebuilt with its OFFSET entries already present: D1).
+func offsetBatch(err error, orig *ach.File, offsets []string) string {
+	be, ok := err.(*ach.BatchError)
+	if !ok {
+		return ""
+	}
+	for i, b := range orig.Batches {
+		if i < len(offsets) && offsets[i] != "null" && b.GetHeader().BatchNumber == be.BatchNumber {
+			return "/batch-with-offset"
+		}
+	}
+	return ""
+}
+
 // ---- the oracle -----------------------------------------------------------------------------
 
 func init() {
@@ -441,7 +475,7 @@ func init() {
 }
 
 func run(t *T) {
-	n := t.Budget(1500)
+	n := t.Budget(2500)
 	secs := gen.AllSECs()
 	for i := 0; i < n; i++ {
 		r := t.R.Fork(uint64(i))
@@ -465,6 +499,10 @@ func run(t *T) {
 		}
 		if r.Chance(1, 5) {
 			o.Categories = nil
+		}
+		if i%6 == 0 {
+			// files whose batches mostly carry an Offset (only these SECs admit one)
+			o.SECs, o.Categories, o.Offset = []string{ach.PPD, ach.CCD, ach.CTX, ach.WEB}, nil, true
 		}
 		f, err := gen.File(r, o)
 		if err != nil {
@@ -523,6 +561,32 @@ func offsetsOf(js []byte) ([]string, error) {
 	return out, nil
 }
 
+// expectedOffsets reconstructs, independently of MarshalJSON, the Offset each
+// batch of a generator file was given: Batch.Create appended entries named
+// OFFSET that carry the offset's routing number, account number, account type
+// (checking 22/27, savings 32/37) and description.  "null" = no offset.
+func expectedOffsets(f *ach.File) []string {
+	out := make([]string, len(f.Batches))
+	for i, b := range f.Batches {
+		out[i] = "null"
+		for _, e := range b.GetEntries() {
+			if e.IndividualName != "OFFSET" {
+				continue
+			}
+			off := ach.Offset{RoutingNumber: e.RDFIIdentification + e.CheckDigit, AccountNumber: e.DFIAccountNumber,
+				AccountType: ach.OffsetChecking, Description: e.DiscretionaryData}
+			if e.TransactionCode/10 == 3 {
+				off.AccountType = ach.OffsetSavings
+			}
+			if js, err := json.Marshal(off); err == nil {
+				out[i] = string(js)
+			}
+			break
+		}
+	}
+	return out
+}
+
 type ctx struct {
 	t     *T
 	input map[string]any
@@ -554,7 +618,7 @@ func checkDecoded(c *ctx, via string, baseClean bool, o outcome, orig *ach.File,
 	// whether a batch with an Offset is rebuilt (D1), not the kind of file
 	off := "no-offsets"
 	if hasOffsets {
-		off = "file-with-offsets"
+		off = "batch-with-offset"
 	}
 	switch {
 	case o.hang:
@@ -564,7 +628,13 @@ func checkDecoded(c *ctx, via string, baseClean bool, o outcome, orig *ach.File,
 		c.fail("C07/decode-panic/"+off+"/"+sanitize(o.panic)+suffix, via, "decoding the JSON of a tabulated file panicked ("+via+")", o.panic, "a file writing the same NACHA text")
 		return false
 	case o.err != nil:
-		c.fail("C07/decode-error/"+errKind(o.err, kind)+"/"+errClass(o.err)+suffix, via, "decoding the JSON of a tabulated file failed ("+via+")", o.err.Error(), "a file writing the same NACHA text")
+		sig := "C07/decode-error/" + errKind(o.err, kind) + "/" + errClass(o.err)
+		if ob := offsetBatch(o.err, orig, offsets0); ob != "" {
+			// the SEC code does not matter for a batch that is rebuilt with its OFFSET entries present
+			// (nor which control figure is noticed first)
+			sig = "C07/decode-error" + ob
+		}
+		c.fail(sig+suffix, via, "decoding the JSON of a tabulated file failed ("+via+")", o.err.Error(), "a file writing the same NACHA text")
 		return false
 	case o.f == nil:
 		c.fail("C07/decode-nil/"+kind+suffix, via, "decoding returned no file and no error ("+via+")", "nil", "a file")
@@ -582,9 +652,12 @@ func checkDecoded(c *ctx, via string, baseClean bool, o outcome, orig *ach.File,
 	} else if text1 != text0 {
 		ok = false
 		rec, show := textDiff(text0, text1)
-		d := fileDiff(orig, o.f)
+		d, at := fileDiff(orig, o.f)
 		if d == "" {
 			d = kind + "/" + rec + "/layout" // same records, different text: padding / line structure
+		} else if at.batch >= 0 && at.batch < len(offsets0) && offsets0[at.batch] != "null" && offsetRelated(at) && !strings.HasSuffix(d, ".IndividualName") {
+			// a batch rebuilt with its OFFSET entries present (D1): the SEC code does not matter
+			d = "batch-with-offset"
 		}
 		c.fail("C07/text-differs/"+d+suffix, via, "the decoded file writes a different NACHA text ("+via+")", show, "byte-identical NACHA text")
 	}
@@ -609,12 +682,12 @@ func checkDecoded(c *ctx, via string, baseClean bool, o outcome, orig *ach.File,
 				added = append(added, n)
 			}
 		}
-		detail := "lost/" + strings.Join(lost, "+")
-		if len(lost) == 0 {
-			detail = "added/" + strings.Join(added, "+")
-		}
-		if len(lost) > 2 {
-			detail = "lost/several"
+		detail := "added/" + strings.Join(added[:min(1, len(added))], "")
+		switch {
+		case len(lost) > 0 && len(b) == 0 && len(a) > 1:
+			detail = "all-lost"
+		case len(lost) > 0:
+			detail = "lost/" + lost[0]
 		}
 		c.fail("C07/validate-opts/"+detail+suffix, via, "ValidateOpts stored on the file did not survive the JSON round trip ("+via+")",
 			fmt.Sprintf("flags after: %v", b), fmt.Sprintf("flags before: %v", a))
@@ -659,11 +732,12 @@ func checkFile(t *T, r *gen.Rand, f *ach.File, opts *ach.ValidateOpts, optClass 
 		t.Fail("C07/marshal-error/"+errClass(err), "json.Marshal of a tabulated file failed", FileInput(f), err.Error(), "JSON")
 		return
 	}
-	offsets0, err := offsetsOf(js0)
+	inJSON, err := offsetsOf(js0)
 	if err != nil {
 		t.Fail("C07/marshal-invalid-json", "the JSON of a file cannot be parsed back generically", FileInput(f), err.Error(), "valid JSON")
 		return
 	}
+	offsets0 := expectedOffsets(f)
 	hasOffsets := false
 	for _, o := range offsets0 {
 		hasOffsets = hasOffsets || o != "null"
@@ -684,6 +758,25 @@ func checkFile(t *T, r *gen.Rand, f *ach.File, opts *ach.ValidateOpts, optClass 
 		input["json"] = string(js0[:20000])
 	}
 	c := &ctx{t: t, input: input, seen: map[string]bool{}}
+	for i := range offsets0 {
+		if offsets0[i] == "null" && i < len(inJSON) {
+			// no OFFSET entry: either no Offset, or one that balanced nothing (all
+			// amounts zero); only the JSON can tell, so it is the reference here
+			offsets0[i] = inJSON[i]
+		}
+		if i >= len(inJSON) || inJSON[i] != offsets0[i] {
+			got := "<no such batch>"
+			if i < len(inJSON) {
+				got = inJSON[i]
+			}
+			what := "changed"
+			if got == "null" {
+				what = "lost"
+			}
+			c.fail("C07/offsets/"+what+"/by-json.Marshal", "", "the JSON of the file does not carry the Offset a batch was created with", got, offsets0[i])
+			break
+		}
+	}
 
 	// (a) json.Marshal -> ach.FileFromJSON
 	o1 := guard(func() (*ach.File, []byte, error) { f1, err := ach.FileFromJSON(js0); return f1, nil, err })
@@ -784,7 +877,7 @@ func checkCLI(c *ctx, via string, clean bool, o outcome, orig *ach.File, text0 s
 	kind := kindOf(orig)
 	off := "no-offsets"
 	if hasOffsets {
-		off = "file-with-offsets"
+		off = "batch-with-offset"
 	}
 	switch {
 	case o.hang:
